@@ -17,7 +17,30 @@ From Verif Require Import Lib.Base Lib.Dyadic Model.Ast Model.Instr Model.Compil
 
 Open Scope Z_scope.
 
-Definition xprims : prims Z cst Z := ctoy toy_natives.
+(* the primitive record: [ctoy] of C15 with string constants read as SIGNED decimal integers
+   (the compiler turns a constant integral subscript, also a negative one, into its decimal
+   string: with this reading the record provably meets [prims_ok], Proofs/ExecToyOk.v) *)
+Definition xstr (s : bytes) : Z :=
+  match s with
+  | 45 :: t => match int_of_bytes t with Some v => - v | None => 0 end
+  | _ => match int_of_bytes s with Some v => v | None => 0 end
+  end.
+
+Definition xprims : prims Z cst Z :=
+  let c := ctoy toy_natives in
+  {| p_num := p_num c; p_str := xstr; p_null := p_null c; p_of_bool := p_of_bool c; p_to_bool := p_to_bool c;
+     p_num_pos := p_num_pos c; p_neg := p_neg c; p_plus := p_plus c; p_arith := p_arith c; p_aug := p_aug c;
+     p_incr := p_incr c; p_cmp := p_cmp c; p_cmpj := p_cmpj c; p_concat := p_concat c;
+     p_concat_multi := p_concat_multi c; p_index_multi := p_index_multi c; p_match := p_match c;
+     p_regex := p_regex c; p_get_field := p_get_field c; p_get_field_int := p_get_field_int c;
+     p_get_named := p_get_named c; p_get_named_str := p_get_named_str c; p_set_field := p_set_field c;
+     p_get_global := p_get_global c; p_set_global := p_set_global c; p_get_special := p_get_special c;
+     p_set_special := p_set_special c; p_array_get := p_array_get c; p_array_set := p_array_set c;
+     p_array_in := p_array_in c; p_array_del := p_array_del c; p_array_clear := p_array_clear c;
+     p_array_len := p_array_len c; p_array_keys := p_array_keys c; p_builtin_arity := p_builtin_arity c;
+     p_builtin := p_builtin c; p_split := p_split c; p_sprintf := p_sprintf c; p_native := p_native c;
+     p_push_arrays := p_push_arrays c; p_pop_arrays := p_pop_arrays c; p_err_depth := p_err_depth c;
+     p_print := p_print c; p_getline := p_getline c; p_set_line := p_set_line c; p_set_exit := p_set_exit c |}.
 
 (* how a run of the BEGIN blocks ended *)
 Inductive toy_end : Type :=
